@@ -268,14 +268,39 @@ NOT_APPLICABLE = [
      'reason': 'stateless function of two operands and an operator: deciding it means enumerating the kind x kind x operator table, not simulating anything (DESIGN.md section 6)'},
 ]
 
-_T = ('seeded search over simulated operation histories of the real code; '
-      'every recorded instant is checked against an independent SI reference '
-      'model; a clean batch is evidence, not proof')
-LEVEL_TEXT = {p: _T for p in ['C%02d' % i for i in range(1, 21)]}
-LEVEL_NOTE = {
-    '*': 'trusted: the reference model in gpsim/refmodel.py (written from the documentation), the simulator own unit tables, IEEE-754 arithmetic; near-threshold discrete decisions are counted as undecided, never as violations',
-}
+_SIM = 'deterministic simulation (seeded scenario = configuration + operation schedule + fault plan, executed on the real code, minimised replay): '
 TECHNIQUE = {
-    '*': 'deterministic simulation: seeded scenario (configuration + operation schedule + fault plan) executed on the real code, per-instant invariants against a reference model, shrinking, replay',
+    '*': _SIM + 'per-instant invariants on the recorded history against an SI reference model',
+    'C01': _SIM + 'per-instant ratio invariant on every adjacent pair of the recorded histories; ratios from the declaration model',
+    'C02': _SIM + 'recording stub on the load callback + per-instant torque-chain invariants (motor law, efficiency/ratio propagation, net torque)',
+    'C03': _SIM + 'per-instant equation of motion and two-instant update law, with the reference lock automaton deciding the clamp clause',
+    'C04': _SIM + 'family of simulated runs with geometrically shrinking step compared with the closed-form solution (error bound proportional to dt, error ratio ~2)',
+    'C07': _SIM + 'differential simulation of the same physical scenario under two unit assignments; divergences explained only by near-threshold decisions or measured ill-conditioning',
+    'C08': _SIM + 'documented motor law at every recorded (speed, duty) with dead-zone boundary injection, plus an exact mirror-run differential',
+    'C09': _SIM + 'documented force/Lewis/Hertz formulas (embedded tables) at every recorded instant, computable flags at assembly, missing-mate-data fault must raise',
+    'C10': _SIM + 'model-based checking of declaration histories, operation by operation, with injected invalid calls and before/after state dumps',
+    'C11': _SIM + 'exact-decimal grid model of the time axis over run / continue / stop schedules in four time units',
+    'C12': _SIM + 'differential simulation of two schedules of the same model (split vs single run; reset + rerun with same/new Solver)',
+    'C13': _SIM + 'reference lock automaton (engage / release / held) run beside the recorded history; overload, zero-duty and sign-change duty schedules injected through the RuleBase seam',
+    'C14': _SIM + 'all rule proposals recorded at the RuleBase seam and arbitrated by the model; conflicts, out-of-range and boundary proposals injected',
+    'C15': _SIM + 'state seen by each built-in rule captured when apply() runs; documented window/value evaluated in SI; exact decisions on timer edges placed on grid instants',
+    'C16': _SIM + 'stop thresholds placed from a dry run (inside, on a sample, between samples, before, beyond); first-occurrence oracle on the recorded sensed series',
+    'C17': _SIM + 'after every schedule operation every advertised series is checked (length, kind, last == live, append-only); export and snapshot must succeed; optional-data subsets swarmed',
+    'C18': _SIM + 'snapshot/export compared value by value with the recorded history through independent unit tables; I/O faults (ENOSPC/EIO/EACCES at byte/open/makedirs/close) injected around export',
+    'C19': _SIM + 'seeded straight-line programs of quantity operations with every live object inspected after every step, plus component constructions with one non-physical parameter',
+    'C20': _SIM + 'declaration histories (re-routing, duplicate names) followed by assembly; chain walk of the public drives links; immutability probes and post-assembly re-declarations',
+}
+_T = ('seeded search over simulated operation histories of the real code; '
+      'every recorded instant / operation is checked against an independent '
+      'SI reference model; violations are minimised and replayable; a clean '
+      'batch is evidence, not proof. Sensitivity shown by the mutation '
+      'catalogue (all caught) and independent seeded changes (DESIGN 8, 12)')
+LEVEL_TEXT = {p: _T for p in ['C%02d' % i for i in range(1, 21)]}
+LEVEL_TEXT['C04'] = _T + '. Borderline for this family: no fault dimension, the simulator contributes an analytic trajectory oracle over families of runs'
+LEVEL_TEXT['C08'] = _T + '. Partial: the (speed, duty) continuum is covered where trajectories and boundary injection visit it'
+LEVEL_TEXT['C09'] = _T + '. Partial: parameter space covered by the swarm (teeth 10..600, four worm angles, data subsets); the WormGear own force is not judged (doc/code differ)'
+LEVEL_TEXT['C19'] = _T + '. Borderline for this family: operation-sequence exploration with failing operations as the only fault'
+LEVEL_NOTE = {
+    '*': 'trusted: the reference model in gpsim/refmodel.py (written from the documentation), the simulator own unit tables (gpsim/si.py), IEEE-754 arithmetic; discrete decisions within 1e-9 relative (plus gearpy own 1e-12 comparison band) of their threshold are counted as undecided, never as violations; differential checks discard scenarios whose own dynamics amplify a 1e-13 perturbation beyond 1% of the tolerance',
 }
 DESIGN_REF = {}
